@@ -4,6 +4,7 @@ from ..callgraph import callee_name
 from ..cfg import cfg_of
 from ..dataflow import du_of, place_key, val_ref_target
 from ..framework import Check
+from .. import loops as L
 from ..taint import local_deps
 from .c05 import header_aggregates, const_str
 
@@ -40,6 +41,49 @@ def returned_header(F, name):
     return const_str(nv), const_str(vv), vv, fn
 
 
+def _table_rows(fn, du, name_val, value_val, bid):
+    """Header { name: TABLE[i].a.to_string(), value: TABLE[i].b.to_string() } with TABLE a constant array and i the item of a loop over
+    0..TABLE.len(): the (name, value) pair of every row; None otherwise"""
+    from ..numeric import numeric_of, ZERO
+    from ..guards import guards_of
+
+    def cell(v):
+        for _ in range(4):
+            if v[0] == "call" and v[2]:
+                v = v[2][0]
+        if v[0] not in ("ref", "place"):
+            return None
+        l, proj = v[1]
+        pr = [e for e in proj if e != "*"]
+        if len(pr) != 2 or pr[0][0] != "i" or pr[1][0] != "f":
+            return None
+        d = du.unique_def(l)
+        if d is None or d[0] != "assign" or d[3]["k"] != "use" or d[3]["ops"][0].get("k") != "const":
+            return None
+        cv = d[3]["ops"][0].get("v")
+        if not (isinstance(cv, dict) and isinstance(cv.get("fields"), dict)):
+            return None
+        rows = [cv["fields"][k] for k in sorted(cv["fields"], key=lambda x: int(x))] if all(k.isdigit() for k in cv["fields"]) else None
+        if not rows:
+            return None
+        return l, pr[0][1], str(pr[1][1]), rows
+    a, b = cell(name_val), cell(value_val)
+    if a is None or b is None or a[0] != b[0] or a[1] != b[1]:
+        return None
+    idx = du.val_place((a[1], ()))
+    num = numeric_of(fn, du, guards_of(fn))
+    rb = num._range_item_bounds(idx, bid) if idx[0] == "place" and idx[1][1] else None
+    if rb is None or rb[0] != (ZERO, 0) or rb[1] != (ZERO, len(a[3])):
+        return None
+    out = []
+    for row in a[3]:
+        f = row.get("fields", {}) if isinstance(row, dict) else {}
+        if a[2] not in f or b[2] not in f:
+            return None
+        out.append((f[a[2]], f[b[2]]))
+    return out
+
+
 def on_all_paths(cfg, block):
     rets = cfg.return_blocks()
     if not rets:
@@ -64,8 +108,12 @@ def run(ctx):
     # ---- the builder: the function that pushes the X-Content-Type-Options header
     builder = None
     pushes_of = {}
+    from ..inline import is_private_helper
+    table_ok = {}
     for n in local:
-        fn = F.fns[n]
+        if is_private_helper(F, n):
+            continue
+        fn = ctx.inl(F.fns[n])        # a private per-header constructor (fixed_header(i), vary_header()) is part of the builder
         du = du_of(fn)
         plist = []
         events = []
@@ -91,6 +139,13 @@ def run(ctx):
             if v[0] == "aggregate" and v[2] == "header::Header":
                 d = dict(zip(v[4], v[3]))
                 hn, hv, vv = const_str(d["name"]), const_str(d["value"]), d["value"]
+                rows = _table_rows(fn, du, d["name"], d["value"], bid) if hn is None else None
+                if rows:
+                    # a constant table of (name, value) rows pushed by a loop over all of its indices: one push per row
+                    for rn, rvv in rows:
+                        plist.append((bid, rn, rvv, ("const", rvv, None, None), t))
+                        table_ok[(n, bid, rn)] = True
+                    continue
             elif v[0] == "call" and v[1] in F.fns:
                 rh = returned_header(F, v[1])
                 if rh:
@@ -103,7 +158,7 @@ def run(ctx):
     if builder is None:
         r1.violate("C10|R1|anchor-missing|builder", "no function pushes an X-Content-Type-Options header: the default-header builder is gone")
         return chk.finish()
-    bfn = F.fns[builder]
+    bfn = ctx.inl(F.fns[builder])
     cfg = cfg_of(bfn)
     du = du_of(bfn)
     for name, pred in REQUIRED.items():
@@ -114,6 +169,12 @@ def run(ctx):
             bid, hv, vv, t = sites[0]
             every = on_all_paths(cfg, bid)
             once = not in_cycle(cfg, bid)
+            if table_ok.get((builder, bid, name)):
+                # pushed by the loop over the whole constant table: once per row; "on every path" = the loop is entered on every path
+                # and the push is on every cycle
+                lp = [l_ for l_ in L.loops_of(bfn) if bid in l_.body]
+                once = len(lp) == 1 and L._on_every_cycle(cfg, lp[0], bid)
+                every = bool(lp) and on_all_paths(cfg, lp[0].header)
             val_ok = pred(hv)
             detail.update({"value": hv, "on_every_path": every, "not_in_loop": once, "value_ok": val_ok, "line": t["span"]["line"]})
             ok = every and once and val_ok
@@ -280,6 +341,8 @@ def _vary_names_origin(F, bfn, push_block, vv):
         if isinstance(v, tuple) and v and v[0] == "call" and v[2]:
             if "join" in (v[1] or ""):
                 a = v[2][0]
+                while a[0] == "cast":
+                    a = a[2]           # `[a, b].join(", ")`: the array is unsized to a slice first
                 tgt = val_ref_target(du, a)
                 if tgt is not None:
                     vec_local = tgt[0]
